@@ -110,6 +110,10 @@ def run(ctx):
             # a string literal that spans a line break inside a list (the newline is part of the string), parentheses inside it
             k = rng.randrange(len(texts_) + 1)
             texts_ = texts_[:k] + ['(define str%d "a(b %s\n c)" )' % (rng.randint(1, 3), rng.choice(["", ")", "((", ";x"])), "(list 1 str%d)" % rng.randint(1, 3)] + texts_[k:]
+        if rng.random() < 0.4:
+            # a form that is rejected when it is parsed (it lexes, so the completeness test is not concerned)
+            k = rng.randrange(len(texts_) + 1)
+            texts_ = texts_[:k] + [rng.choice(["(if)", "(lambda)", "(let ((y)) y)", "(define)", "(quote)", "(if 1 2 3 4)"])] + texts_[k:]
         # the trace specification re-lexes the pending text at every line: keep sessions small
         texts_ = [t for t in texts_ if len(t) <= 160][:6]
         if "tick!" in " ".join(texts_) or not texts_:
@@ -128,17 +132,33 @@ def run(ctx):
         rs = ip["results"][1:]
         if len(rs) < len(texts_) or any(o.get("k") == "panic" for o in rs):
             continue                       # a panic through the library interface is C07's finding, not a transcript to compare with
-        expected = []
-        for o in rs:
-            if o["k"] == "value" and o["v"].get("t") != "void":
-                for line in "".join(chr(c) for c in o["printed"]).split("\n"):      # a printed string may span lines
-                    expected.append({"ch": "out", "cs": cps(line)})
-            elif o["k"] == "error":
-                expected.append({"ch": "err", "cs": cps(o["msg"])})
         for variant in range(3):
-            lines = []
-            for t in texts_:
-                lines += split_lines(rng, t)
+            # submissions: a form, or several forms the first line of each of which continues the last line of the one
+            # before ("each submission prints the value of its last form ... or its error message"); only the LAST form
+            # of a submission may be a failing one (what a submission does after a failure in its middle is not stated)
+            groups = []
+            for k, t in enumerate(texts_):
+                if groups and variant > 0 and rng.random() < 0.35 and rs[k - 1]["k"] != "error":
+                    groups[-1].append(k)
+                else:
+                    groups.append([k])
+            expected, lines, subs = [], [], []
+            for g in groups:
+                o = rs[g[-1]]
+                if o["k"] == "value" and o["v"].get("t") != "void":
+                    for line in "".join(chr(c) for c in o["printed"]).split("\n"):      # a printed string may span lines
+                        expected.append({"ch": "out", "cs": cps(line)})
+                elif o["k"] == "error":
+                    expected.append({"ch": "err", "cs": cps(o["msg"])})
+                gl = []
+                for k in g:
+                    ls = split_lines(rng, texts_[k])
+                    if gl:
+                        gl[-1] = gl[-1] + " " + ls[0]; gl += ls[1:]
+                    else:
+                        gl = ls
+                lines += gl
+                subs.append(" ".join(texts_[k] for k in g))
             p = subprocess.run([binp], input=("\n".join(lines) + "\n").encode(), stdout=subprocess.PIPE, stderr=subprocess.PIPE, timeout=60, cwd=ctx.dir)
             out = strip_ansi(p.stdout.decode(errors="replace")).split("\n")
             if out and out[-1] == "":
@@ -147,7 +167,7 @@ def run(ctx):
             err = strip_ansi(p.stderr.decode(errors="replace")).split("\n")
             if err and err[-1] == "":
                 err = err[:-1]
-            events.append(((i, variant, lines), {"ev": "session", "lines": [cps(x) for x in lines], "forms": [cps(t) for t in texts_],
+            events.append(((i, variant, lines), {"ev": "session", "lines": [cps(x) for x in lines], "forms": [cps(t) for t in subs],
                                                   "expected": expected, "stdout": [cps(x) for x in out], "stderr": [cps(x) for x in err]}))
     bad = run_trace(ctx, events, "sessions")
     for (i, variant, lines), why in bad:
